@@ -5,6 +5,8 @@ import (
 	"fmt"
 	"sort"
 	"strings"
+
+	"verifharness/hx"
 )
 
 // Req is one scripted read of the server's auth loop, exactly the `k:v/k:v/…` record of the op line.
@@ -63,7 +65,7 @@ func (r Req) String() string {
 	case "eof", "io":
 		return strings.Join(f, "/")
 	}
-	add("u", r.User)
+	add("u", hx.Hex([]byte(r.User))) // hex: names differ by case folding / normalisation / blanks only
 	add("s", r.Service)
 	add("m", r.Method)
 	if r.Cb != "" {
@@ -132,7 +134,7 @@ func ParseReq(s string) Req {
 		case "bk":
 			r.BadKind = v
 		case "u":
-			r.User = v
+			r.User = string(hx.UnHex(v))
 		case "s":
 			r.Service = v
 		case "m":
